@@ -12,7 +12,18 @@ import (
 //
 
 // So that runtime.SetFinalizer can be mocked for testing.
-var setFinalizer = runtime.SetFinalizer
+var setFinalizer = func(obj interface{}, finalizer interface{}) {
+	if finalizer != nil {
+		// The value may already have a finalizer, set by another pool (every
+		// runtime context with limits has its own pool, and a value marked in
+		// one can be marked again in another, e.g. by setmetatable).  The new
+		// finalizer replaces it, but it must be cleared first:
+		// runtime.SetFinalizer aborts the whole process otherwise ("fatal
+		// error: runtime.SetFinalizer: finalizer already set").
+		runtime.SetFinalizer(obj, nil)
+	}
+	runtime.SetFinalizer(obj, finalizer)
+}
 
 // UnsafePool is an implementation of Pool that makes every effort to let
 // values be GCed when they are only reachable via WeakRefs.  It relies on
